@@ -52,6 +52,8 @@ fn key_name(k: &str, salt: usize) -> String {
 		("b", 5) => "players".to_string(),
 		("a", 6) => "\u{feff}a".to_string(), // a key that starts with U+FEFF
 		("z", 6) => "playedOn".to_string(),
+		("b", 6) => "$serde_json::private::RawValue".to_string(), // keys some serde_json features treat as magic
+		("b", 3) => "$serde_json::private::Number".to_string(),
 		_ => k.to_string(),
 	}
 }
@@ -140,7 +142,7 @@ fn random_tree(r: &mut Rng, depth: usize) -> Vec<(String, Node)> {
 		let klen = r.below(12) as usize;
 		let mut k: String = (0..klen).map(|_| *r.pick(&['a', 'Z', '0', '_', '\u{e9}', '\u{30d7}', ' ', '"', '\\'])).collect();
 		if r.chance(1, 4) {
-			k = r.pick(&["lastFrame", "startAt", "playedOn", "players", "characters", "names", "netplay", "code", "consoleNick", "\u{feff}"]).to_string();
+			k = r.pick(&["lastFrame", "startAt", "playedOn", "players", "characters", "names", "netplay", "code", "consoleNick", "\u{feff}", "$serde_json::private::RawValue", "$serde_json::private::Number"]).to_string();
 		}
 		while k.len() > 255 || out.iter().any(|(x, _)| *x == k) {
 			k = format!("k{}_{}", j, r.below(1000));
@@ -529,6 +531,20 @@ fn check_arch(db: &LayoutDb, x: &Arch, idx: usize, seed: u64, sink: &Sink) {
 			crafted.push((name.clone(), data));
 		}
 	}
+	// the reader finds the members by name: their order (peppi.json first, frames.arrow last) is the writer's business
+	if intact && idx % 5 == 2 {
+		let body: Vec<(String, Vec<u8>)> = crafted.iter().filter(|(n, _)| n != "peppi.json" && n != "frames.arrow" && n != "metadata.json" && n != "start.json").cloned().collect();
+		let pick = |n: &str| crafted.iter().find(|(m, _)| m == n).cloned();
+		let mut re: Vec<(String, Vec<u8>)> = vec![];
+		re.extend(pick("peppi.json"));
+		re.extend(body);
+		re.extend(pick("start.json"));
+		re.extend(pick("metadata.json"));
+		re.extend(pick("frames.arrow"));
+		if re.len() == crafted.len() {
+			crafted = re;
+		}
+	}
 	let mut bytes = tarx::write(&crafted);
 	if !intact {
 		let es = tarx::walk(&bytes).unwrap();
@@ -593,14 +609,27 @@ fn check_arch(db: &LayoutDb, x: &Arch, idx: usize, seed: u64, sink: &Sink) {
 		}
 	};
 	match (&res, x.outcome.as_str()) {
-		(Outcome::Ok(g3), "ok") => match real::write_slp(g3) {
-			Outcome::Ok(w) => {
-				if w != built.bytes {
-					report("crafted_read", "mismatch", "the game read from the archive differs".into());
+		(Outcome::Ok(g3), "ok") => {
+			match real::write_slp(g3) {
+				Outcome::Ok(w) => {
+					if w != built.bytes {
+						report("crafted_read", "mismatch", "the game read from the archive differs".into());
+					}
+				}
+				o2 => report("crafted_read", o2.kind(), o2.detail()),
+			}
+			// the same archive with the reader's skip-frames option: start, end, metadata, Gecko codes, hash as in the full read
+			if intact {
+				match real::read_slpp(&bytes, true) {
+					Outcome::Ok(gs) => {
+						if gs.metadata != g3.metadata || gs.end != g3.end || gs.start.bytes != g3.start.bytes || gs.gecko_codes != g3.gecko_codes || gs.hash != g3.hash {
+							report("crafted_read_skip", "mismatch", "skip-frames read of the archive differs from the full read in metadata / end / start / Gecko codes / hash".into());
+						}
+					}
+					o2 => report("crafted_read_skip", o2.kind(), o2.detail()),
 				}
 			}
-			o2 => report("crafted_read", o2.kind(), o2.detail()),
-		},
+		}
 		(Outcome::Err(_), "err") => {
 			// rejected: also with the reader's skip-frames option
 			if intact {
